@@ -14,7 +14,7 @@ def sh(cmd, cwd=None, env=None):
 if not os.path.exists(R):
     sh('git -C /repo worktree add -q --detach %s HEAD' % R)
 sh('git checkout -q --detach $(git -C /repo rev-parse HEAD) && git checkout -q -- . && git clean -fdq', cwd=R)
-sh('rsync -a --delete --exclude .git --exclude replays --exclude .cache/run /verif/ %s/' % V)
+sh('rsync -a --delete --exclude .git --exclude replays --exclude .cache/run %s/ %s/' % (os.environ.get('VERIF_SRC', '/verif'), V))
 gm = os.path.join(V, 'harness', 'go.mod')
 txt = open(gm).read().replace('=> /repo', '=> ' + R)
 open(gm, 'w').write(txt)
